@@ -271,6 +271,8 @@ def gen_plan(rng, cfg, tier, profile):
     plan.setdefault('db_faults', {})[str(rng.randrange(0, 12))] = ['raise', 'ioerror']
   if rng.random() < 0.3:
     plan['oversleep'] = [rng.choice([0.0, 0.0, 0.001, 0.3]) for _ in range(5)]
+  if profile in ('c02', 'c10') and rng.random() < 0.15:
+    plan['stall'] = rng.choice([0.3, 1.0, 5.0])      # a thread stalls while it holds the cache lock
   if 'hot' not in plan and 'pct_points' not in plan and rng.random() < 0.3:
     # race-directed schedule: a thread is pre-empted where it runs carbon/cache.py code
     # while holding no lock (the only place a check-then-act window can be), and the
